@@ -239,6 +239,15 @@ int main(int argc, char** argv)
         docs.push_back(d);
       }
     }
+    // a few complete first documents as well (the token strings above are mostly rejected): marked with token count 0
+    {
+      static const char* FIRST[] = {"<a x=\"1\" y=\"2\">t<b/>u</a>", "<a><b><c/></b></a>", "<?xml version=\"1.0\"?>\n<r k=\"v\"/>", "<a>\n<b>\n<"};
+      for(size_t i = 0; i < sizeof(FIRST) / sizeof(*FIRST); ++i)
+      {
+        Doc* d = new Doc; d->ntok = 0; d->text = FIRST[i]; d->e = new vf::Exact(d->text, true); d->ok = false; d->line = d->col = 0;
+        docs.insert(docs.begin(), d);
+      }
+    }
     long long n = 0;
     for(size_t i = 0; i < docs.size(); ++i)
     {
@@ -246,6 +255,7 @@ int main(int argc, char** argv)
       if(!sh.take()) continue;
       for(size_t j = 0; j < docs.size() && docs[j]->ntok <= len2; ++j)
       {
+        if(docs[j]->ntok == 0 && !docs[j]->text.empty()) continue;   // fixed first documents are not used as second ones
         if((n++ & 0xfff) == 0) { vf::watchdog_arm(20000); vf::crumb("xml.reuse", sh.token(), "reuse first='" + vf::show(docs[i]->text) + "' second='" + vf::show(docs[j]->text) + "'"); }
         Xml::Parser p; Xml::Element el;
         p.parse(String::fromCString(docs[i]->e->p, docs[i]->text.size()), el);
